@@ -32,12 +32,24 @@
    g = g + 1 compiles to INC), of any length, failing statements included,
    every statement gives Sem's value or error class, binds exactly Sem's
    globals, writes nothing and leaves the machine ready — after a runtime
-   error too ([C01_simple_sessions_partial]).  Missing for the full statement:
-   calls, control flow, generators, locals and closures, output; g = 1 + g (equal to g + 1 only by commutativity of IEEE addition,
+   error too ([C01_simple_sessions_partial]).  And the whole statement
+   language over globals (StmtSem.v, StmtVM.v, StmtCorrect.v, StmtTop.v):
+   blocks, if, if/else and while with pure conditions and such statements as
+   bodies, nested without bound, compiled in value position and in discarded
+   position (the two code-generation strategies of every construct, the
+   negated-condition folding, forward and backward jumps with their
+   back-patching, the "last value" slot of a value-position while): for
+   every fuel for which the fuelled semantics [ssem] — which Sem.eval computes
+   with the same fuel, [C01_sem_statement] — gives a statement a meaning, the
+   compiled code run by the VM model ends with that value or error class and
+   those globals, in REPL mode and in file mode, statement after statement
+   ([C01_statement_sessions_partial]).  Missing for the full statement:
+   calls, generators, locals and closures, output; g = 1 + g (equal to g + 1 only by commutativity of IEEE addition,
    not proved here). *)
 Require Import Calc.Base Calc.Bytecode Calc.Value Calc.FloatText Calc.Ast Calc.Resolve Calc.Compile
         Calc.VM Calc.Sem Calc.Session Calc.CorrSession Calc.SemSession Calc.SemProofs
-        Calc.ExprSem Calc.ExprVM Calc.ExprCorrect Calc.ExprTop Calc.ExprAssign Calc.ExprLen Calc.ExprSession.
+        Calc.ExprSem Calc.ExprVM Calc.ExprCorrect Calc.ExprTop Calc.ExprAssign Calc.ExprLen Calc.ExprSession
+        Calc.StmtSem Calc.StmtVM Calc.StmtCorrect Calc.StmtTop.
 Open Scope Z_scope.
 
 (* ---- the full statement (open) ---- *)
@@ -213,6 +225,91 @@ Proof.
     split; [exact E1|]. destruct (c_children c); [reflexivity|discriminate].
   - unfold demo_session, small. repeat constructor; cbn; lia.
   - vm_compute. reflexivity.
+Qed.
+
+(* ---- the statement language over globals: blocks, if, if/else, while ---- *)
+(* Sem.eval computes the fuelled meaning of a statement: same fuel, same globals, same value or error *)
+Theorem C01_sem_statement : forall n t, wstmt t = true -> forall env st G' r,
+  ssem n (s_globals st) t = Some (G', r) ->
+  eval n t env st = Done (with_globals st G') (ctl_of r).
+Proof. exact eval_stmt. Qed.
+Print Assumptions C01_sem_statement.
+
+(* in every position (value / discarded) the emitted code has that meaning *)
+Theorem C01_statement_compiled : forall t, wstmt t = true ->
+  forall d sel s w s', sel = 0 -> wfcs s -> Compile.comp t sel (tfl d) s = COk (w, s') -> SpecS t d sel s s' w.
+Proof. exact comp_stmt. Qed.
+Print Assumptions C01_statement_compiled.
+
+(* value mode (REPL): ByteCode, load, Run *)
+Theorem C01_statement_run : forall t s s' v c m n G' res,
+  wstmt t = true -> wfcs s -> idle v s c m ->
+  ByteCode t s = CompOk s' ->
+  ssem n (v_globals v) t = Some (G', res) ->
+  wfcs s' /\
+  exists k, forall fuel,
+    ((fuel <= k)%nat -> snd (Run fuel (load_code v s') true) = RFuel \/
+                        match res with
+                        | Ok _ => False
+                        | Fail err => exists me rep, Run fuel (load_code v s') true
+                                        = (reset_after_error (SG (load_code v s') G' (c_mid c) me), RError err rep)
+                        end) /\
+    ((k < fuel)%nat ->
+     match res with
+     | Ok x => ran_to_value v c m s' G' x (Run fuel (load_code v s') true)
+     | Fail err => exists me rep, Run fuel (load_code v s') true
+                                  = (reset_after_error (SG (load_code v s') G' (c_mid c) me), RError err rep)
+     end).
+Proof. exact bytecode_run_stmt. Qed.
+Print Assumptions C01_statement_run.
+
+(* file mode: ByteCodeNoStck, Run(false): same globals, nothing left on the stack *)
+Theorem C01_statement_run_file_mode : forall t s s' v c m n G' res,
+  wstmt t = true -> wfcs s -> idle v s c m ->
+  ByteCodeNoStck t s = CompOk s' ->
+  ssem n (v_globals v) t = Some (G', res) ->
+  wfcs s' /\
+  exists k, forall fuel, (k < fuel)%nat ->
+    match res with
+    | Ok _ => ran_to_end v c m s' G' (Run fuel (load_code v s') false)
+    | Fail err => exists me rep, Run fuel (load_code v s') false
+                                 = (reset_after_error (SG (load_code v s') G' (c_mid c) me), RError err rep)
+    end.
+Proof. exact bytecode_nostck_run_stmt. Qed.
+Print Assumptions C01_statement_run_file_mode.
+
+(* every history of such statements *)
+Theorem C01_statement_sessions_partial : forall ts mc c m,
+  ready mc c m -> Forall (fun t => wstmt t = true /\ CompileWf.wfb t = true) ts ->
+  sess mc (v_globals (mc_vm mc)) ts.
+Proof. exact stmt_session. Qed.
+Print Assumptions C01_statement_sessions_partial.
+
+(* a session with loops and branches, by computation: covered by the theorem, and it computes *)
+Definition demo_statements : list node :=
+  [NAssign (NName "i") (NInt 0);
+   NAssign (NName "t") (NInt 0);
+   NWhile (NBin "<" (NName "i") (NInt 5))
+          (NBlock [NAssign (NName "t") (NBin "+" (NName "t") (NName "i"));
+                   NAssign (NName "i") (NBin "+" (NName "i") (NInt 1))]);
+   NName "t";
+   NIfElse (NUn "!" (NBin ">" (NName "t") (NInt 5))) (NStr "small") (NStr "big");
+   NIf (NBin "==" (NName "t") (NInt 0)) (NInt 1);
+   NBlock [NWhile (NBin ">" (NName "i") (NInt 0)) (NAssign (NName "i") (NBin "-" (NName "i") (NInt 2)));
+           NIf (NBin "<" (NName "i") (NInt 0)) (NAssign (NName "neg") (NBool true));
+           NList [NName "i"; NName "neg"]];
+   NIf (NInt 1) (NInt 5);
+   NWhile (NName "nosuch") (NInt 1)].
+
+Example C01_demo_statements_are_covered :
+  Forall (fun t => wstmt t = true /\ CompileWf.wfb t = true) demo_statements /\
+  map brief (run_all mc_after_first demo_statements) =
+  [Some (Ok (VInt 0)); Some (Ok (VInt 0)); Some (Ok (VInt 5)); Some (Ok (VInt 10));
+   Some (Ok (VStr "big")); Some (Ok VNil); Some (Ok (VArr [VInt (-1); VBool true]));
+   Some (Fail ErrType); Some (Fail ErrNil)].
+Proof.
+  split; [|vm_compute; reflexivity].
+  unfold demo_statements. repeat constructor.
 Qed.
 
 (* ---- proved: the oracle follows the language rules ---- *)
